@@ -578,7 +578,10 @@ def _scale_doublemad(
         np.nanmean(data_right, axis=axis, keepdims=True) / norm_aad,
         mad_right,
     )
-    return np.where(data < loc, mad_left, mad_right)
+    # A sample on the median belongs to neither side: it gets the mean of both,
+    # so that negating the data (which swaps the sides) does not change its scale
+    mad_both = 0.5 * (mad_left + mad_right)
+    return np.where(data < loc, mad_left, np.where(data > loc, mad_right, mad_both))
 
 
 def _scale_diffcov(
